@@ -52,7 +52,7 @@ theorem dequeStep_valid (ts : List Bytes) (op : BufOp) (hv : ∀ t ∈ ts, valid
     exact hv u (List.mem_of_mem_tail hu)
   | popBack =>
     intro u hu
-    exact hv u (List.mem_of_mem_dropLast hu)
+    exact hv u (List.dropLast_subset ts hu)
   | append o =>
     intro u hu
     simp only [dequeStep, List.mem_append] at hu
@@ -84,17 +84,19 @@ theorem popFront_ofToks (ts : List Bytes) (hns : ∀ t ∈ ts, noSlash t) :
       rw [ofToks_cons, ofToks_cons]
       simp only [popFront, find_append_slash t _ ht, List.tail_cons, List.head?_cons]
       rw [ofToks_cons]
-      simp [List.take_append, List.drop_append]
+      simp
 
 theorem popBack_ofToks (ts : List Bytes) (hns : ∀ t ∈ ts, noSlash t) :
     popBack (ofToks ts) = (ofToks ts.dropLast, ts.getLast?) := by
   rcases List.eq_nil_or_concat ts with rfl | ⟨a, t, rfl⟩
   · simp [ofToks, popBack, rfind]
-  · have ht : noSlash t := hns t (by simp)
+  · rw [List.concat_eq_append] at hns ⊢
+    have ht : noSlash t := hns t (by simp)
     rw [ofToks_snoc]
     simp only [popBack, rfind_append_slash _ _ ht]
     have h1 : List.take ((ofToks a).length + 1) (ofToks a ++ 47 :: t) = ofToks a ++ [47] := by
       simp [List.take_append]
+      exact List.take_of_length_le (by omega)
     have h2 : List.drop ((ofToks a).length + 1) (ofToks a ++ 47 :: t) = t := by
       simp [List.drop_append]
     rw [h1, h2]
@@ -217,6 +219,7 @@ theorem history_decoded (s : Bytes) (ops : List BufOp) (hs : validPtr s = true)
 /-- out-of-range replace leaves the pointer unchanged and reports `(index, count)`, for every index -/
 theorem replace_out_of_range (s tok : Bytes) (index : Nat) (hs : validPtr s = true)
     (h : count s ≤ index) : replace s index tok = (s, .err ⟨index, count s⟩) := by
+  have _ := hs
   unfold replace
   split
   · rfl
